@@ -166,6 +166,8 @@ pub fn worker(mode: &str) {
         "c11" => c11::worker_main(),
         #[cfg(feature = "std")]
         "c13" => c13::worker_main(),
+        #[cfg(feature = "std")]
+        "text" => text::worker_main(),
         other => {
             eprintln!("rt: unknown worker mode {other}");
             std::process::exit(EXIT_INCONCLUSIVE);
